@@ -31,6 +31,7 @@ from typing import Dict, List, Optional, Set, Tuple
 
 from ..lib import common, tlc
 from ..lib.evidence import Report, machinery_failure
+from . import c08x
 
 common.check_repo_import()
 import jsonargparse  # noqa: E402
@@ -153,7 +154,9 @@ def process_roots() -> dict:
     env = hashlib.sha1(json.dumps(sorted(os.environ.items())).encode()).hexdigest()[:12]
     return {"environ": {"k": "s", "v": env, "y": "other"}, "cwd": {"k": "s", "v": os.getcwd(), "y": "other"},
             "argparse_ns": {"k": "s", "v": "std" if argparse.Namespace is _STD_NAMESPACE else "patched", "y": "other"},
-            "sys_argv": {"k": "s", "v": hashlib.sha1(repr(sys.argv).encode()).hexdigest()[:12], "y": "other"}}
+            "sys_argv": {"k": "s", "v": hashlib.sha1(repr(sys.argv).encode()).hexdigest()[:12], "y": "other"},
+            "sys_path": {"k": "s", "v": hashlib.sha1(repr(sys.path).encode()).hexdigest()[:12], "y": "other"},
+            "path_dir": {"k": "s", "v": str(c08x.current_path_dir.get()), "y": "other"}}
 
 
 def declared_defaults(parser, prefix="") -> list:
@@ -224,6 +227,15 @@ def hint(T: dict):
         return Set[a[0]]
     if k == "tuple":
         return Tuple[tuple(a)]
+    if k == "union":  # typing caches Union[...] modulo the order of the members: clear the caches and read the built hint back
+        import typing
+
+        for fn in typing._cleanups:
+            fn()
+        u = typing.Union[tuple(a)]
+        if list(u.__args__) != a:
+            raise RuntimeError(f"typing built {u} for the members {a}")
+        return u
     raise AssertionError(T)
 
 
@@ -284,6 +296,8 @@ def call_op(op: str, parser, arg, scratch: str):
         return parser.format_help()
     if op == "parse_args":
         return parser.parse_args([])
+    if op == "parse_args_ns":
+        return parser.parse_args([], namespace=arg)
     raise AssertionError(op)
 
 
@@ -343,7 +357,7 @@ def replay_cases(task: dict) -> list:
                 ev = observe_call(op, p, {}, "", [], lambda: call_op(op, p, None, d), {"dkeys": dk, "dactive": dk})
             else:
                 keys = [{"p": k["p"], "T": k["T"], "d": k["d"]} for k in case["keys"]]
-                ev = observe_call(op, p, {"arg": arg}, "arg", keys, lambda: call_op(op, p, arg, d))
+                ev = observe_call("parse_args" if op == "parse_args_ns" else op, p, {"arg": arg}, "arg", keys, lambda: call_op(op, p, arg, d))
             ev.pop("_ret")
             ev["cmpok"] = True
             ev["_case"] = {k: case[k] for k in ("T", "fl", "op", "root", "pl", "flagged", "value", "ok")}
@@ -414,10 +428,13 @@ RICH_TYPES = {
     "lt": {"k": "list", "a": [{"k": "tuple", "a": [{"k": "int", "a": []}, {"k": "list", "a": [{"k": "int", "a": []}]}]}]},
     "e": {"k": "enum", "a": []},
     "i": {"k": "int", "a": []},
+    # round 4: Unions other than Optional (members tried in order on the same object), alone and below a tuple
+    "ul": {"k": "union", "a": [{"k": "list", "a": [{"k": "int", "a": []}]}, {"k": "list", "a": [{"k": "str", "a": []}]}]},
+    "tu": {"k": "tuple", "a": [{"k": "int", "a": []}, {"k": "union", "a": [{"k": "list", "a": [{"k": "int", "a": []}]}, {"k": "dict", "a": [{"k": "int", "a": []}]}]}]},
 }
 RICH_DEFAULTS = {"li": [1], "lli": [[1], [2]], "dli": {"a": [1]}, "tl": (0, [0]), "tle": (0, [Color.RED]), "tdt": (0, {"a": (1, 2)}),
-                 "se": {Color.RED}, "ol": None, "lt": [(1, [2])], "e": Color.GREEN, "i": 3}
-TOP = ["li", "lli", "tl", "tle", "se", "ol", "e", "i"]
+                 "se": {Color.RED}, "ol": None, "lt": [(1, [2])], "e": Color.GREEN, "i": 3, "ul": ["s1"], "tu": (0, {"a": 1})}
+TOP = ["li", "lli", "tl", "tle", "se", "ol", "e", "i", "ul", "tu"]
 GROUP = ["dli", "tdt", "lt"]  # declared as --g.<name>
 SUBA = ["li", "tl"]  # declared in sub-command a
 
@@ -451,6 +468,10 @@ def rand_value(T: dict, rnd, fl: str):
     if k == "enum":
         m = rnd.choice(["RED", "GREEN"])
         return "x" if fl == "bad" else (m if fl == "raw" else Color[m])
+    if k == "str":
+        return "x" if fl == "bad" else (str(rnd.randint(0, 9)) if fl == "raw" else "s%d" % rnd.randint(0, 9))
+    if k == "union":
+        return rand_value(rnd.choice(T["a"]), rnd, fl)
     if k == "opt":
         return None if (rnd.random() < 0.2 and fl != "bad") else rand_value(T["a"][0], rnd, fl)
     n = rnd.randint(1, 3)
@@ -553,6 +574,7 @@ def random_history(task: dict) -> list:
     d = str(common.scratch("c08h"))
     os.makedirs(os.path.join(d, "dcf"))
     os.makedirs(os.path.join(d, "sub"))
+    os.makedirs(os.path.join(d, "elsewhere"))
     with open(os.path.join(d, "sub", "ok.yaml"), "w") as f:
         f.write("li: [4, 5]\ntl: [1, [2]]\n")
     with open(os.path.join(d, "sub", "bad.yaml"), "w") as f:
@@ -621,7 +643,18 @@ def random_history(task: dict) -> list:
                 ret = emit("parse_env", {"env": env}, "", [], lambda: p.parse_env(env), "env dict", dinfo(given))
             elif r < 0.52:
                 path, given = rnd.choice([("sub/ok.yaml", ("li", "tl")), ("sub/bad.yaml", ()), ("sub/missing.yaml", ())])
-                ret = emit("parse_path", {"path": path}, "", [], lambda: p.parse_path(path), "config file in another directory", dinfo(given))
+                if path != "sub/missing.yaml" and rnd.random() < 0.5:
+                    # round 4: a Path OBJECT created here (process in the scratch directory) is handed over after the process has
+                    # moved to another directory: cwd (a root of the snapshot) must be that other directory afterwards
+                    po = jsonargparse.Path(path, mode="fr")
+                    other = rnd.choice(["sub", "dcf", "elsewhere"])
+                    os.chdir(os.path.join(d, other))
+                    try:
+                        ret = emit("parse_path", {"path": po}, "", [], lambda: p.parse_path(po), f"Path object created in the scratch directory, process now in {other}/", dinfo(given))
+                    finally:
+                        os.chdir(d)
+                else:
+                    ret = emit("parse_path", {"path": path}, "", [], lambda: p.parse_path(path), "config file in another directory", dinfo(given))
             elif r < 0.57:
                 ret = emit("get_defaults", {}, "", [], lambda: p.get_defaults(), "")
             elif r < 0.60:
@@ -673,7 +706,15 @@ def random_history(task: dict) -> list:
                         if not ow:
                             open(path, "w").close()
                         # a refused save stops at check_overwrite (_core.py:907), before any copy or validation: op "save_refused"
-                        emit(op if ow else "save_refused", {"arg": cfg, "path": path}, "arg", keys, lambda: p.save(cfg, path, overwrite=ow), note)
+                        if rnd.random() < 0.3:  # round 4: the target is a Path object created here, the process is elsewhere when save is called
+                            po = jsonargparse.Path(os.path.basename(path), mode="fc")
+                            os.chdir(os.path.join(d, rnd.choice(["sub", "elsewhere"])))
+                            try:
+                                emit(op if ow else "save_refused", {"arg": cfg, "path": po}, "arg", keys, lambda: p.save(cfg, po, overwrite=ow), note + ", Path object, process elsewhere")
+                            finally:
+                                os.chdir(d)
+                        else:
+                            emit(op if ow else "save_refused", {"arg": cfg, "path": path}, "arg", keys, lambda: p.save(cfg, path, overwrite=ow), note)
                     ret = None
                 elif op == "clone":
                     ret = emit(op, {"arg": cfg}, "arg", keys, lambda: cfg.clone(), note)
@@ -878,6 +919,26 @@ def main(argv):
             rep.violation("model:" + ",".join(mctx.violated), f"TLC: {mctx.violated} violated in MC_Context (a managed piece of process state is not restored)", {"cex": mctx.cex[:5000]})
         else:
             machinery_failure(PID, "TLC failed on MC_Context:\n" + mctx.stdout[-3000:])
+    # round 4: process state handed to path-directed calls, class families with instance defaults (MC_HeapExt)
+    xname = f"MC_HeapExt_{tier}"
+    mx = tlc.run("MC_HeapExt", xname, workers=min(workers, 4), heap=heap, timeout=900)
+    rep.add_tlc(xname, mx)
+    if mx.errors or mx.rc != 0:
+        if mx.violated:
+            rep.violation("model:" + ",".join(mx.violated), f"TLC: invariant {mx.violated} violated in MC_HeapExt (the Alg layer does not restore the process state / does not derive the spec of an instance default)",
+                          {"tlc_errors": mx.errors, "counterexample": mx.cex[:6000]})
+        else:
+            machinery_failure(PID, "TLC failed on MC_HeapExt:\n" + mx.stdout[-3000:])
+    xcases = sorted([p for p in mx.printed if isinstance(p, dict) and p.get("kind") in ("proc", "fresh")], key=lambda c: json.dumps(c, sort_keys=True))
+    pcases = [c for c in xcases if c["kind"] == "proc"]
+    fcases = sorted([c for c in xcases if c["kind"] == "fresh"], key=lambda c: (c["dform"], c["nis"], c["ann"], json.dumps(c, sort_keys=True)))
+    if len(xcases) != mx.distinct - 3 or not pcases or not fcases:
+        machinery_failure(PID, f"MC_HeapExt emitted {len(xcases)} cases for {mx.distinct} states")
+    rep.extra["model_proc_cases"] = len(pcases)
+    rep.extra["model_proc_cases_raising"] = sum(1 for c in pcases if not c["ok"])
+    rep.extra["model_proc_cases_entry_differs_from_home"] = sum(1 for c in pcases if c["entry"] != c["home"])
+    rep.extra["model_family_cases"] = len(fcases)
+    rep.extra["model_family_cases_must_be_fresh"] = sum(1 for c in fcases if c["must"])
     cases = sorted([p for p in mc.printed if isinstance(p, dict) and "flagged" in p], key=lambda c: json.dumps(c, sort_keys=True))
     if len(cases) != mc.distinct or not cases:
         machinery_failure(PID, f"MC_Heap emitted {len(cases)} cases for {mc.distinct} states")
@@ -900,10 +961,17 @@ def main(argv):
     try:
         replayed = [ev for evs in pool_map(replay_cases, tasks, procs) for ev in evs]
         histories = pool_map(random_history, htasks, procs) + pool_map(subonly_history, stasks, procs)
+        ext = [ev for evs in pool_map(c08x.replay_proc, [{"cases": pcases[i : i + 12]} for i in range(0, len(pcases), 12)], procs) for ev in evs]
+        ext += [ev for evs in pool_map(c08x.replay_fresh, [{"cases": fcases[i : i + 20]} for i in range(0, len(fcases), 20)], procs) for ev in evs]
     except Exception as ex:  # noqa: BLE001
         machinery_failure(PID, f"execution failed: {type(ex).__name__}: {ex}")
+    if len(ext) != len(xcases):
+        machinery_failure(PID, f"{len(ext)} executions for {len(xcases)} cases of MC_HeapExt")
     events = list(replayed)
     origin = [("case", i) for i in range(len(replayed))]
+    for k, ev in enumerate(ext):
+        events.append(ev)
+        origin.append(("ext-case", k))
     for hi, evs in enumerate(histories):
         for k, ev in enumerate(evs):
             events.append(ev)
@@ -931,11 +999,15 @@ def main(argv):
 
     # ---- evidence
     n_calls = sum(1 for e in events if e["kind"] == "call")
-    n_fresh = len(events) - n_calls
+    n_proc = sum(1 for e in events if e["kind"] == "proc")
+    n_freshd = sum(1 for e in events if e["kind"] == "freshd")
+    n_fresh = len(events) - n_calls - n_proc - n_freshd
     rep.traces = len(events)
     rep.evaluations = len(events)
-    rep.extra.update({"replayed_model_cases": len(replayed), "random_histories": n_hist, "subcommands_only_histories": n_sub, "history_events": len(events) - len(replayed),
-                      "fresh_events": n_fresh, "calls_that_raised": sum(1 for e in events if e["kind"] == "call" and not e["ok"])})
+    rep.extra.update({"replayed_model_cases": len(replayed), "random_histories": n_hist, "subcommands_only_histories": n_sub, "history_events": len(events) - len(replayed) - len(ext),
+                      "fresh_events": n_fresh, "path_directed_calls": n_proc, "path_directed_calls_that_raised": sum(1 for e in events if e["kind"] == "proc" and not e["ok"]),
+                      "class_family_triple_instantiations": n_freshd, "class_families_sharing_the_live_default": sum(1 for e in events if e["kind"] == "freshd" and e["cal1"] == e["cal2"]),
+                      "calls_that_raised": sum(1 for e in events if e["kind"] == "call" and not e["ok"])})
     for e in events:
         if e["kind"] == "call" and e["arg"] and e["keys"]:
             has_container = any(c["t"] in ("list", "dict", "tuple", "set") for c in e["hpre"].values())
@@ -944,13 +1016,18 @@ def main(argv):
                                                             sort_keys=True).encode()).hexdigest())
         elif e["kind"] == "fresh" and e["objs1"]:
             rep.note_nontrivial("fresh:" + str(len(e["objs1"])) + ":" + e["_note"])
+        elif e["kind"] == "proc" and e["pc"]["entry"] != e["pc"]["home"]:
+            rep.note_nontrivial("proc:" + json.dumps(e["pc"], sort_keys=True))
+        elif e["kind"] == "freshd":
+            rep.note_nontrivial("freshd:" + json.dumps(e["fam"], sort_keys=True))
     rep.rule = ("cases = snapshotted calls (deep snapshot of every argument, the declared defaults, os.environ, cwd, argparse.Namespace before and after) and double instantiations; "
                 "non-trivial & distinct = distinct (operation, outcome, typed keys, abstract pre-heap of the arguments) with at least one nested container, plus distinct double instantiations that built objects")
     rep.exhaustive = False
     rep.explanation = (f"MC_Heap enumerated {len(cases)} (nesting, flavour, operation, argument kind) cases completely and all of them were executed on the real code; "
-                       f"{n_hist} random histories on the rich parser and {n_sub} on the sub-commands-only parser added {len(events) - len(replayed)} snapshotted events ({n_fresh} double instantiations); TLC validated all {len(events)} events against Trace_Heap")
+                       f"{n_hist} random histories on the rich parser and {n_sub} on the sub-commands-only parser added {len(events) - len(replayed) - len(ext)} snapshotted events ({n_fresh} double instantiations); MC_HeapExt enumerated {len(pcases)} path-directed calls (operation x outcome x directory the process is in x directory tree of the path) and {len(fcases)} class families with an instance default, all executed on the real code ({n_proc} + {n_freshd} events); TLC validated all {len(events)} events against Trace_Heap")
     flagged_seen = [e for e in replayed if e["_case"]["flagged"]]
-    for e in (flagged_seen[:1] + replayed[:1] + [ev for evs in histories for ev in evs][:2]):
+    for e in (flagged_seen[:1] + replayed[:1] + [ev for evs in histories for ev in evs][:2] + [x for x in ext if x["kind"] == "proc" and x["pc"]["entry"] != x["pc"]["home"]][:1]
+              + [x for x in ext if x["kind"] == "freshd" and x["fam"]["where"] == "other"][:1]):
         rep.sample({k: (v if not k.startswith("h") else {"cells": len(v)}) for k, v in e.items() if k not in ("_ret",)} if e["kind"] == "call" else e)
 
     # ---- classification
@@ -962,6 +1039,26 @@ def main(argv):
         e = events[idx - 1]
         org = origin[idx - 1]
         names = {c: d for c, d in cl}
+        if e["kind"] == "proc":
+            pc = e["pc"]
+            case = {"call": pc, "path": e.get("_path"), "returned": e["ok"], "exception": e.get("_exc", ""), "seen_by_user_code": e["seen"], "process_state_before": e["pre"],
+                    "process_state_after": e["post"], "model_case": e.get("_case"), "failed_clauses": cl, "origin": org}
+            if "proc-ref" in names:
+                rep.violation(f"proc:{pc['op']}:{'returned' if e['ok'] else 'raised'}:{names['proc-ref']}",
+                              f"{pc['op']} (path of directory tree {pc['home']}, process in {pc['entry']}) leaves the process state changed: {names['proc-ref']}", case)
+            else:
+                rep.add_drift(f"the process state is restored but the call is not the Alg layer's ({names.get('proc-alg')})", case)
+            continue
+        if e["kind"] == "freshd":
+            fam = e["fam"]
+            case = {"family": fam, "owner": e.get("_owner"), "default_expression": e.get("_default"), "configuration": e.get("_cfg"), "failed_clauses": cl, "origin": org,
+                    "identities": {k: e[k] for k in ("own1", "own1b", "own2", "cal1", "cal1b", "cal2", "old")}}
+            if "freshd-ref" in names:
+                rep.violation(f"fresh:{'owner' if any(d == 'owner' for c, d in cl if c == 'freshd-ref') else 'signature-default'}:{fam['owner']}/{fam['where']}/{'imports-name' if fam['nis'] else 'no-name'}/{fam['dform']}",
+                              "instantiations share an object that a class_path/init_args spec (derived from a signature default) must build anew", case)
+            else:
+                rep.add_drift(f"freshness holds but the sharing pattern is not the Alg layer's ({names.get('freshd-alg')})", case)
+            continue
         if e["kind"] == "fresh":
             rep.violation("fresh:shared-object", "two instantiate_classes calls on one configuration share an object (or reuse an existing one)",
                           {"event": e, "origin": org})
